@@ -190,8 +190,8 @@ def glob(R, ctx):
 
 def run(R, ctx):
     R.explanation = (
-        "The two filter predicates are turned into decision tables over the 3x3 abstract states of the apply/skip lists by an "
-        "abstract path enumeration of their bodies and compared with the documented decision and with each other; MIR dominance "
+        "The two filter predicates are evaluated (sa/peval.py) on all 7x7 apply/skip list states built from a matching and a non-matching "
+        "pattern and compared with the documented decision and with each other; MIR dominance "
         "shows that no rule runs without both predicates having answered true. Glob matching itself is not decided."
     )
     R.assumptions += ["`FilterPattern::matches` is opaque: only any/all-over-matches shapes are recognised, anything else fails closed"]
